@@ -131,6 +131,9 @@ func isIntegerType(t types.Type) bool {
 // ---- crude interval of a value from types and constants only (used to decide wrap-around) ----
 
 func (e *BE) interval(v ssa.Value, depth int) (lo, hi *big.Int) {
+	if c := e.capturedLoad(v); c != nil {
+		return e.interval(c, depth)
+	}
 	tlo, thi, ok := typeRange(v.Type())
 	if !ok {
 		return nil, nil
@@ -224,6 +227,9 @@ func (e *BE) fresh(v ssa.Value) Lin { return linVar(e.id(vkey{v, "", 'v'})) }
 
 // expand translates an integer-typed SSA value into a linear expression over base variables.
 func (e *BE) expand(v ssa.Value) Lin {
+	if c := e.capturedLoad(v); c != nil {
+		return e.expand(c)
+	}
 	if m, ok := e.memo[v]; ok {
 		if m == nil { // cycle
 			return e.fresh(v)
@@ -347,6 +353,9 @@ func (e *BE) expand1(v ssa.Value) Lin {
 // For the result of a module call the offset is  off(arg0) + o  where o is a variable constrained by the callee's
 // locality postcondition.
 func (e *BE) offOf(v ssa.Value) (Lin, ssa.Value) {
+	if c := e.capturedLoad(v); c != nil {
+		return e.offOf(c)
+	}
 	switch x := v.(type) {
 	case *ssa.Parameter:
 		return linConst(0), x
@@ -386,6 +395,9 @@ func (e *BE) offOf(v ssa.Value) (Lin, ssa.Value) {
 
 // lenOf returns len(v) (kind 'l') or cap(v) (kind 'c') for slice, string, array and *array values.
 func (e *BE) lenOf(v ssa.Value, kind byte) Lin {
+	if c := e.capturedLoad(v); c != nil {
+		return e.lenOf(c, kind)
+	}
 	t := v.Type().Underlying()
 	if p, ok := t.(*types.Pointer); ok {
 		if a, ok := p.Elem().Underlying().(*types.Array); ok {
